@@ -25,6 +25,7 @@ FEATURE_TEXT = {
     "trailing": "ends with blanks   ",
     "blanks3": "above\n\n\n\n\nbelow",
     "blanks2": "upper\n\n\nlower",
+    "blank1": "Dear customer,\n\nthank you",
     "long": "long " + "x" * 110 + " end",
     "backslash": "continued \\\nline",
     "hash": "has # hash and 'quotes' inside",
@@ -83,6 +84,10 @@ def render(case: dict) -> str:
         if kind == "comment":
             return lit_stmt + "\n"
         return f"print(len({lit}), 'tail')\n"
+    if place == "list_elem_blank":
+        if kind == "comment":
+            return lit_stmt + "\n"
+        return "items = [\n    'first',\n\n    " + lit + " ,\n    'last',\n    'really last',\n]\nprint(items)\n"
     if place == "dict_value":
         if kind == "comment":
             return lit_stmt + "\n"
@@ -92,8 +97,8 @@ def render(case: dict) -> str:
 
 def layout_cases(rep: Report, t: str):
     kinds = '{"triple", "triple_single", "raw_triple", "bytes_triple", "fstring_triple", "docstring", "single", "concat", "comment"}'
-    feats = '{"tab", "trailing", "blanks3", "blanks2", "long", "backslash", "hash", "crlf_escape", "indent8"}'
-    places = '{"module", "in_def", "after_decorator", "between_imports", "call_arg", "dict_value"}'
+    feats = '{"tab", "trailing", "blanks3", "blanks2", "blank1", "long", "backslash", "hash", "crlf_escape", "indent8"}'
+    places = '{"module", "in_def", "after_decorator", "between_imports", "call_arg", "dict_value", "list_elem_blank"}'
     lens, maxf = ("{60, 100}", 2) if t == "quick" else ("{60, 79, 100}", 3)
     cfg = "\n".join(["CONSTANTS", f"  Kinds = {kinds}", f"  Features = {feats}", f"  Places = {places}",
                      f"  LineLengths = {lens}", f"  MaxFeatures = {maxf}", "INIT Init", "NEXT Next", "INVARIANT Dump",
